@@ -894,4 +894,32 @@ example : C05Scope.listScopeB (AdjM.run (AdjM.new 256) [.addNode, .addNode, .add
 
 end AdjList
 
+/-! ### `law …` lines (wave 6): only `ok` passes
+
+The laws themselves (the `Iterator` / `DoubleEndedIterator` / `ExactSizeIterator` contract on every iterator of csr.rs and
+adj.rs, the visit-trait views against the inherent readers, `VisitMap` / `reset_map`, `clone_from` ≡ `clone`,
+`Default` ≡ `new`, `Debug` never panics) are evaluated by the harness on the real values; what the driver contributes is
+that no answer but `ok` is accepted. -/
+
+/-- the driver's verdict on a `law` line is `ok` exactly when the harness answered `ok` (so a `VIOLATED …` answer, a
+panic text or anything unreadable is a `SPECFAIL`) -/
+theorem C05_law_verdict_ok_iff (name : List String) (impl : String) :
+    C05Scope.lawVerdict name impl = "ok" ↔ impl = "ok" := by
+  unfold C05Scope.lawVerdict
+  by_cases h : impl = "ok"
+  · simp [h]
+  · have hb : (impl == "ok") = false := by simpa using h
+    rw [hb]
+    simp only [Bool.false_eq_true, if_false, h, iff_false]
+    intro hc
+    have := congrArg String.length hc
+    rw [String.length_append, String.length_append, String.length_append] at this
+    have h1 : "SPECFAIL law [".length = 14 := by decide
+    have h2 : "ok".length = 2 := by decide
+    omega
+
+example : C05Scope.lawVerdict ["iter", "csr.edges"] "ok" = "ok" := by decide
+example : C05Scope.lawVerdict ["iter", "csr.edges"] "VIOLATED nth(1) = Some((0, 0, 2, 5)), stepping with next gives Some((1, 0, 2, 5))"
+    ≠ "ok" := by decide
+
 end PetgraphModel.C05T
